@@ -42,6 +42,7 @@ import Inkayaku.Props.Translated.PgnIter
 import Inkayaku.Props.Translated.PgnTotal
 import Inkayaku.Props.Translated.UciText
 import Inkayaku.Props.Translated.FindUci
+import Inkayaku.Props.Translated.MakeAllUci
 import Inkayaku.Props.Translated.Simple
 /-! Umbrella module: the equivalence theorems between the Rust functions translated on every run (`Gen/Rs/*.lean`, by
 `/verif/translator`) and the hand-written model live in `Props/Translated/*.lean`, one file per Rust source / topic.
@@ -122,6 +123,7 @@ ROUND 6: UCI TEXT LOOKUP (property C13) AND THE STATIC EVALUATION (property C11)
 |-----------------------------------------------------------------|----------------------------------------------------|------------------------------------|-----------------|
 | `piece_to_string` (lib.rs), `Move::to_uci_string`, `str::trim`  | `piece_to_string`, `Move.to_uci_string`, `strTrim` (`UciText`) | `pieceString`, `Move.uci`, `Util.rustTrim` | `rs_str_trim_string`, `rs_piece_to_string`, `rs_to_uci_string_eq` (`UciText.lean`) |
 | `Bitboard::{find_uci, make_uci}`, `enum MoveFromUciError`       | `Bitboard.find_uci`, `.find_uci.find_1`, `.make_uci` (`FindUci`) | `San.findUci`, `San.makeUci` | `rs_to_uci_string_generated`, `rs_find_loop`, `rs_find_uci_vis`, `rs_find_uci_eq`, `findUci_vis`, `rs_make_uci_vis`, `rs_make_uci_eq`, `makeUci_error_vis` (`FindUci.lean`) |
+| `Bitboard::make_all_uci` (loop over the texts with the rollback vector, early `return Err(..)` after taking every made move back) | `Bitboard.make_all_uci`, `.make_all_uci.for_1` (main loop), `.for_2` (rollback loop) (`MakeAllUci`) | `San.makeAllUci` / `makeAllUciAux` | `Roll`, `rs_unmake_vis`, `rs_rollback`, `rs_make_all_loop`, `rs_make_all_uci_eq` (needs `Search.Inv moves.len() b`: well-formed with clock budget; uses `Search.make_inv`) (`MakeAllUci.lean`) |
 | `SimpleHeuristic::{piece_value, game_stage, piece_square_sum, piece_square_sum_for_player, piece_square_value}`, `Heuristic for SimpleHeuristic::evaluate_ongoing`, `QUEEN_VALUE` …, `MID`, `LATE` (heuristic/simple.rs; `WHITE_TABLES` / `BLACK_TABLES` = opaque list parameters) | `SimpleHeuristic.piece_value` …, `.piece_square_sum.while_1`, `.evaluate_ongoing` (`Simple`) | `Eval.pieceValue`, `gameStage`, `squareSum`, `sideSquareSum`, `pieceSquareValue`, `evaluateOngoing` | `gen_tables_ok`, `rs_piece_value_eq`, `rs_game_stage_eq`, `rs_square_loop`, `rs_piece_square_sum_eq`, `rs_piece_square_sum_for_player_eq`, `rs_piece_square_value_eq`, `rs_evaluate_ongoing_eq`, `rs_evaluate_full_eq` (no opaque result left in `Heuristic::evaluate`) (`Simple.lean`) |
 
 Mutation sanity check of all of these: `/verif/translator/mutation_check.sh`. -/
